@@ -121,7 +121,7 @@ func (e *Engine) VerifyRoot(fn *ssa.Function) (u *Unit) {
 		u.checkObjInvs(fr, exit, e.pos(fn.Pos()))
 		for k, v := range exit.ghost {
 			if strings.HasPrefix(k, "nheld:") {
-				u.oblige("lock.balanced("+k[6:]+")", []string{"C09", "C11", "C13", "C03", "C06"}, "", exit.pc, Eq(v, TZero), e.pos(fn.Pos()), "function returns holding "+k[6:])
+				u.oblige("lock.balanced("+k[6:]+")", []string{"C09", "C11", "C13", "C03", "C06", "C04", "C08", "C12"}, "", exit.pc, Eq(v, TZero), e.pos(fn.Pos()), "function returns holding "+k[6:])
 			}
 		}
 		u.curFn = nil
